@@ -289,6 +289,52 @@ def runtime_checks():
                                         violated='derivative at the Neumann end differs from the prescribed one', got=du.reshape(-1).tolist(), want=kw[key]))
         except Exception as e:
             bad.append(dict(case=f'DoubleEndedBVP1D {mode}: weights replaced between two calls', error=f'{type(e).__name__}: {e}'))
+    # single-precision coordinates at end points that are not single-precision numbers (0.1, 0.3), a network with huge outputs: the coordinate
+    # tensor holds the rounded end point, so the constrained value is still exact - nothing of the network leaks in
+    for big in (1.0e4, 1.0e7):
+        net32 = Scaled(FCNN(1, 1, hidden_units=(6,)).float(), big)
+        # (at the left end / the initial time `t - t_0` is an exact zero; at the right end the rounded end points no longer give exactly 1, which is rounding)
+        for cname, cond, pt, want in (('DirichletBVP left', DirichletBVP(0.1, 1.25, 0.7, -0.75), 0.1, 1.25), ('IVP', IVP(0.3, 1.25), 0.3, 1.25),
+                                      ('IVP (derivative mode)', IVP(0.3, 1.25, 0.5), 0.3, 1.25), ('DoubleEndedBVP1D DD left', DoubleEndedBVP1D(0.1, 0.7, x_min_val=1.25, x_max_val=-0.75), 0.1, 1.25)):
+            try:
+                got = cond.enforce(net32, torch.full((n, 1), pt, dtype=torch.float32, requires_grad=True)).detach().reshape(-1)
+                if float((got.double() - want).abs().max()) > 1e-6:
+                    bad.append(dict(case=f'{cname}: float32 coordinates at an end point that is not a float32 number', network_output_scale=big, point=pt,
+                                    got=got.tolist(), want=want, violated='the network output leaks into the constrained value'))
+            except Exception as e:
+                bad.append(dict(case=f'{cname}: float32 coordinates', error=f'{type(e).__name__}: {e}'))
+    # the documented positional order of the boundary arguments: (x_min, x_max, x_min_val, x_min_prime, x_max_val, x_max_prime)
+    from neurodiffeq.neurodiffeq import diff as _diff
+    try:
+        netp = FCNN(1, 1, hidden_units=(6,))
+        cnd = DoubleEndedBVP1D(0.2, 1.9, None, 0.4, 0.9)             # Neumann slope 0.4 on the left, value 0.9 on the right
+        xl, xr = full(0.2), full(1.9)
+        dl = _diff(cnd.enforce(netp, xl), xl).detach()
+        vr = cnd.enforce(netp, xr).detach()
+        if float((dl - 0.4).abs().max()) > 1e-5 or float((vr - 0.9).abs().max()) > 1e-6:
+            bad.append(dict(case='DoubleEndedBVP1D(0.2, 1.9, None, 0.4, 0.9) - boundary data passed positionally', violated='u\'(x_min) = 0.4, u(x_max) = 0.9 do not hold',
+                            left_slope=dl.reshape(-1).tolist(), right_value=vr.reshape(-1).tolist()))
+        cdd = DoubleEndedBVP1D(0.2, 1.9, 1.1, None, -0.6)
+        if float((cdd.enforce(netp, xl).detach() - 1.1).abs().max()) > 1e-6 or float((cdd.enforce(netp, xr).detach() + 0.6).abs().max()) > 1e-6:
+            bad.append(dict(case='DoubleEndedBVP1D(0.2, 1.9, 1.1, None, -0.6) - boundary data passed positionally', violated='u(x_min) = 1.1, u(x_max) = -0.6 do not hold'))
+    except Exception as e:
+        bad.append(dict(case='DoubleEndedBVP1D with boundary data passed positionally', error=f'{type(e).__name__}: {e}'))
+    # a network whose forward pass uses the SAME condition object (warm start: the old constrained solution plus a correction)
+    for mode, kw in (('DN', dict(x_min_val=1.1, x_max_prime=-0.6)), ('NN', dict(x_min_prime=0.4, x_max_prime=-0.6))):
+        try:
+            cnd = DoubleEndedBVP1D(0.2, 1.9, **kw)
+            old, corr = FCNN(1, 1, hidden_units=(5,)), FCNN(1, 1, hidden_units=(5,))
+            raw_enforce = getattr(DoubleEndedBVP1D.enforce, '__wrapped__', DoubleEndedBVP1D.enforce)
+            warm = lambda x: raw_enforce(cnd, old, x) + corr(x)
+            for end, pt, key in (('left', 0.2, 'x_min_prime'), ('right', 1.9, 'x_max_prime')):
+                if key in kw:
+                    xx = full(pt)
+                    du = _diff(raw_enforce(cnd, warm, xx), xx).detach()
+                    if float((du - kw[key]).abs().max()) > 1e-5:
+                        bad.append(dict(case=f'DoubleEndedBVP1D {mode}: the network itself evaluates the same condition object (warm start)', end=end,
+                                        violated='derivative at the Neumann end differs from the prescribed one', got=du.reshape(-1).tolist(), want=kw[key]))
+        except Exception as e:
+            bad.append(dict(case=f'DoubleEndedBVP1D {mode}: re-entrant use', error=f'{type(e).__name__}: {e}'))
     # intervals far from the origin compared with their length (a late time window, time stamps), end points representable in the working
     # precision: the normalised coordinate is exactly 0 and 1 at the ends, so the end values are reproduced to rounding in either precision
     import random
